@@ -198,15 +198,17 @@ func runC05Scan(t *testing.T, c RestCase) (*h.Violation, h.Info) {
 		if op.Kind == "put" {
 			values = append(values, op.Val) // also of puts that fail: their bytes must not turn up anywhere either
 		}
+		var early *dbx.Result
 		if outage {
-			away := dir + ".away"
-			if err := os.Rename(dir, away); err != nil {
-				return h.V("harness", "rename: %v", err), info
+			var got dbx.Result
+			held, err := dbx.Outage(dir, func() { got = tgt.Do(su, op, ver) })
+			if err != nil {
+				return h.V("harness", "%v", err), info
 			}
-			got := tgt.Do(su, op, ver)
-			if err := os.Rename(away, dir); err != nil {
-				return h.V("harness", "rename back: %v", err), info
-			}
+			early, outage = &got, held // (not held: the code put the directory back itself - an ordinary call)
+		}
+		if outage {
+			got := *early
 			info.Class("save-failed-and-was-undone")
 			if got.Class == model.OK {
 				return h.V("harness", "step %d %s reported success while the state directory was unavailable (C03/C04 decide that)", i, op), info
@@ -223,7 +225,12 @@ func runC05Scan(t *testing.T, c RestCase) (*h.Violation, h.Info) {
 			}
 		} else {
 			want := tr.Expect(su.Rules, op, ver)
-			got := tgt.Do(su, op, ver)
+			var got dbx.Result
+			if early != nil {
+				got = *early
+			} else {
+				got = tgt.Do(su, op, ver)
+			}
 			if diff := dbx.Compare(got, want); diff != "" {
 				clause := "result-equals-model"
 				if c.Poison {
@@ -332,7 +339,12 @@ func runC05Scan(t *testing.T, c RestCase) (*h.Violation, h.Info) {
 		kek2 := &countingKEK{inner: inner}
 		d4, err := db.Open(long, kek2, audit.New(io.Discard))
 		if err != nil {
-			return h.V("reopen-succeeds", "open under a long file name: %v", err), info
+			// an implementation that refuses to open a database it could never save to is within its
+			// rights (no clause says a file under such a name must open): this way of making saves fail
+			// is then not available, nothing more
+			os.Rename(long, dbPath)
+			info.Class("long-name-trick-not-available")
+			return nil, info
 		}
 		base := kek2.calls.Load()
 		t4 := dbx.DBTarget{D: d4}
